@@ -4,6 +4,7 @@ Statements only; proofs are references to Lemmas/*.  Model: Ldap3V/Model/Ber.lea
 -/
 import Ldap3V.Lemmas.BerParse
 import Ldap3V.Lemmas.BerInt
+import Ldap3V.Lemmas.BerMinimal
 namespace Ldap3V
 open Spec
 
@@ -36,6 +37,33 @@ theorem C07_len_definite_minimal (n : Nat) (h : n < 18446744073709551616) :
     · simp [encLen, show ¬ n < 128 by omega, e]
     · rw [← e]; exact beVal_be256 n
 
+/-- Minimality for WHOLE trees.  `Enc t (encode t)` (used by `C07_parse_encode`) allows any definite
+length form at every node; the writer in fact emits, at every node of the tree, exactly the minimal length
+octets `encLen n` of that node's content length `n` (`MinEnc`: `Spec.Enc` with the length octets fixed to
+`encLen`; what `encLen` is: `C07_len_definite_minimal`).  `MinEnc` determines the bytes, so the writer's
+output is THE minimal-length-octets encoding; it is one of the encodings of `Spec.Enc`; and no
+definite-length encoding of the tree is shorter. -/
+theorem C07_encode_lengths_minimal (t : Tlv) (h : WF t) :
+    MinEnc t (encode t) ∧
+    (∀ bs bs', MinEnc t bs → MinEnc t bs' → bs = bs') ∧
+    (∀ bs, MinEnc t bs → bs.length < 18446744073709551616 → Enc t bs) ∧
+    (∀ bs, Enc t bs → (encode t).length ≤ bs.length) :=
+  ⟨minEnc_encode t h, minEnc_unique t, enc_of_minEnc t, encode_length_min t⟩
+
+/-- … hence `MinEnc` characterises the writer's output -/
+theorem C07_minEnc_iff (t : Tlv) (h : WF t) (bs : Bytes) : MinEnc t bs ↔ bs = encode t :=
+  ⟨minEnc_eq t bs, fun e => e ▸ minEnc_encode t h⟩
+
+/-- Trees deeper than lber's `MAX_DEPTH` (a constructed value inside 64 constructed values) are refused:
+on EVERY definite-length encoding of such a tree the parser answers `error`, whatever follows. -/
+theorem C07_too_deep (t : Tlv) (bs rest : Bytes) (h : Enc t bs) (hd : maxDepth < t.depth)
+    (hl : (bs ++ rest).length < 18446744073709551616) : parseTag (bs ++ rest) = .error :=
+  parseTag_too_deep t bs rest h hd hl
+
+/-- … and whatever the parser returns is at most `maxDepth` levels deep -/
+theorem C07_parsed_depth (bs : Bytes) (t : Tlv) (r : Bytes) (h : parseTag bs = .ok t r) : t.depth ≤ maxDepth :=
+  parseTag_depth_le bs t r h
+
 /-- INTEGER / ENUMERATED content octets are the shortest two's complement octets of the value,
 for every 64-bit integer. -/
 theorem C07_int (v : Int) (h1 : -9223372036854775808 ≤ v) (h2 : v < 9223372036854775808) :
@@ -48,6 +76,17 @@ theorem C07_int_tags (c i : Nat) (v : Int) :
   ⟨by simp [Tag.toTlv], by simp [Tag.toTlv]⟩
 
 theorem C07_bool_true : boolOctet true = [0xFF] ∧ boolOctet false = [0x00] := ⟨rfl, rfl⟩
+
+/-- BOOLEAN: the typed front end (`Boolean::into_structure`) puts exactly `boolOctet b` into the tree, so
+`C07_bool_true` speaks about the writer's output: TRUE is written `FF` (X.690 §11.1, required by
+RFC 4511 §5.1), FALSE `00`, under any class / low tag number. -/
+theorem C07_bool_writer (c i : Nat) (b : Bool) (hi : i ≤ 30) :
+    (Tag.boolean c i b).toTlv = .prim c i (boolOctet b) ∧
+    encode (Tag.boolean c i true).toTlv = [(c * 64 + i).toUInt8, 0x01, 0xFF] ∧
+    encode (Tag.boolean c i false).toTlv = [(c * 64 + i).toUInt8, 0x01, 0x00] ∧
+    encode (Tag.bool true).toTlv = [0x01, 0x01, 0xFF] ∧ encode (Tag.bool false).toTlv = [0x01, 0x01, 0x00] := by
+  refine ⟨by simp [Tag.toTlv], ?_, ?_, by decide, by decide⟩ <;>
+    simp [Tag.toTlv, boolOctet, encode, encType_low c false i hi, encLen]
 
 /-! ### non-vacuity: the hypotheses are met by non-trivial values (tests, labelled as such) -/
 
@@ -64,5 +103,23 @@ example : intOctets (-129) = [0xFF, 0x7F] ∧ intOctets 128 = [0x00, 0x80] ∧ i
 example : encLen 127 = [0x7F] ∧ encLen 128 = [0x81, 0x80] ∧ encLen 255 = [0x81, 0xFF] ∧
     encLen 256 = [0x82, 0x01, 0x00] ∧ encLen 65535 = [0x82, 0xFF, 0xFF] ∧ encLen 65536 = [0x83, 0x01, 0x00, 0x00] := by
   simp [encLen, be256]
+
+/-- `MinEnc` of a nested tree with a 200-octet value `v` (long-form length `81 C8` inside, `81 CE` outside), and
+the non-minimal `04 81 01 61` above, which is in `Enc`, is not in `MinEnc` -/
+example (v : Bytes) (hv : v.length = 200) : MinEnc (.cons 0 16 [.prim 0 2 [1], .prim 0 4 v])
+    ([0x30, 0x81, 0xCE, 0x02, 0x01, 0x01, 0x04, 0x81, 0xC8] ++ v) := by
+  refine ⟨by decide, by decide, [0x02, 0x01, 0x01, 0x04, 0x81, 0xC8] ++ v,
+    ⟨[0x02, 0x01, 0x01], [0x04, 0x81, 0xC8] ++ v, ⟨by decide, by decide, by decide⟩,
+      ⟨[0x04, 0x81, 0xC8] ++ v, [], ⟨by decide, by decide, by simp [encLen, be256, hv]⟩, rfl, by simp⟩, by simp⟩,
+    by simp [encLen, be256, hv]⟩
+example : ¬ MinEnc (.prim 0 4 [0x61]) [0x04, 0x81, 0x01, 0x61] := by
+  intro h; have := minEnc_eq _ _ h; revert this; decide
+/-- the context-tagged `dnAttributes [4] TRUE` of an extensible match -/
+example : encode (Tag.boolean 2 4 true).toTlv = [0x84, 0x01, 0xFF] := by decide
+/-- `n` nested `[0]` around an empty SEQUENCE are `n + 1` levels deep: from `n` = 64 on, `C07_too_deep` applies -/
+example (n : Nat) : (Nat.repeat (fun t => Tlv.cons 2 0 [t]) n (.cons 0 16 [])).depth = n + 1 := by
+  induction n with
+  | zero => simp [Nat.repeat, Tlv.depth, Tlv.depthList]
+  | succ n ih => simp only [Nat.repeat, Tlv.depth, Tlv.depthList, ih]; omega
 
 end Ldap3V
